@@ -20,14 +20,14 @@ var suitesByProp = map[string][]func(*runner, *rng){
 	"C13": {suiteOptimize, suiteOptimizeAlias, suiteTtmlOptimize, suiteStylingParsed},
 	"C16": {suiteDur, suiteFracFloat},
 	"C15": {suiteLin, suiteLinHuge},
-	"C01": {suiteSrt},
-	"C02": {suiteVtt, suiteVttNeeds},
-	"C04": {suiteSsa, suiteSsaModel},
+	"C01": {suiteSrt, suiteLineBoundSrt},
+	"C02": {suiteVtt, suiteVttNeeds, suiteVttKeyed, suiteLineBoundVtt},
+	"C04": {suiteSsa, suiteSsaModel, suiteLineBoundSsa},
 	"C17": {suiteSchedules, suiteStlIO, suiteTeletextFullReader, suiteTeletextSchedules},
 	"C19": {suiteDeterminism},
 	"C08": {suiteTotality, suiteTeletextHostile, suiteStlNilItems},
 	"C06": {suiteTeletext, suiteTeletextModel, suiteTeletextHamming},
-	"C07": {suiteConvert, suiteConvertModel, suiteConvertOps, suiteConvertCLI, suiteConvertRich, suiteConvertPlain, suiteConvertCLIModel, suiteConvertPlainStyled, suiteConvertPlainTtx, suiteConvertStyledTtx, suiteConvertStlStyled, suiteConvertIllegalToTtml},
+	"C07": {suiteConvert, suiteConvertModel, suiteConvertOps, suiteConvertCLI, suiteConvertRich, suiteConvertPlain, suiteConvertCLIModel, suiteConvertPlainStyled, suiteConvertStlStyledSrt, suiteConvTtmlSsa, suiteConvTtmlVtt, suiteConvertPlainTtx, suiteConvertStyledTtx, suiteConvertStlStyled, suiteConvertIllegalToTtml},
 	"C20": {suiteConcurrency},
 	"C18": {suiteFaults, suiteStlIO, suiteTeletextFullReader, suiteTeletextFaults},
 	"C03": {suiteTtml},
